@@ -2,7 +2,7 @@
 (* Model of nfa_algorithms.epsilon_closure: a worklist over a Python set.    *)
 (* `todo.pop()` yields an arbitrary element (hash order): \E q \in todo.     *)
 (* Init ranges over every epsilon-graph on Q and every start set.            *)
-EXTENDS Util
+EXTENDS Util, Steps
 CONSTANT Q
 VARIABLES E, X0, result, todo
 vars == <<E, X0, result, todo>>
@@ -14,9 +14,8 @@ Init == /\ E \in SUBSET (Q \X Q)
 
 Pop(q) ==
   /\ q \in todo
-  /\ LET Q1 == {e[2] : e \in {e \in E : e[1] = q}} \ result
-     IN /\ result' = result \cup Q1
-        /\ todo' = (todo \ {q}) \cup Q1
+  /\ result' = EcResult(E, result, q)
+  /\ todo' = EcTodo(E, result, todo, q)
   /\ UNCHANGED <<E, X0>>
 
 Next == \E q \in todo : Pop(q)
